@@ -41,7 +41,8 @@ def schemes(seed, tier):
            "  EidPool <- MC_EidPool", "  Numeric <- MC_Numeric", "  ExtraStrs <- MC_ExtraStrs",
            "  ExtraInts <- MC_ExtraInts", "  SimMode = %s", "  Sample = %d" % (3 if tier == "quick" else 8),
            "SPECIFICATION Spec", "CHECK_DEADLOCK FALSE",
-           "INVARIANT ThmAliasAndEidResolve", "INVARIANT ThmRewriteIdempotent"]
+           "INVARIANT ThmAliasAndEidResolve", "INVARIANT ThmRewriteIdempotent",
+           "INVARIANT ThmDtIdAndValueAgree"]
     stats = {"states": 0, "generated": 0}
     # the two spec theorems are checked on ALL schemes (no emission, fast)
     run = TLCRun("eref.all", "ElementRef", defs,
@@ -204,6 +205,54 @@ def run_check(tier, seed, t0):
         if sample is None:
             sample = {"alias": sch["alias"], "svid": sch["svid"], "eid": sch["eid"],
                       "refs": sch["refs"][:6]}
+    # datetime dimensions: position id vs value
+    if schs:
+        for scn0, side in ((scenario("cat_x_datetime", [cat("A", 3), cat("B", N, subtype="datetime")]), "cols"),
+                           (scenario("datetime_x_cat", [cat("A", N, subtype="datetime"), cat("B", 3, miss=[2])]), "rows")):
+            s0, rec = base_record(scn0, seed + 9)
+            if rec is None:
+                continue
+            resp = envelope.build_response(s0, rec, configs.DEFAULT)
+
+            def dt_py(v):
+                if v["t"] == "s" and v["s"].startswith("d") and v["s"][1:].isdigit():
+                    return "2021-%02d" % int(v["s"][1:])
+                return py_value(v)
+
+            memo = {}
+
+            def dt_out(slot, value, present=True):
+                key = (slot, json.dumps(value), present)
+                if key not in memo:
+                    try:
+                        memo[key] = ("ok", observe(resp, transforms_for(slot, side, value, present)))
+                    except Exception as e:  # noqa
+                        memo[key] = ("raise", repr(e))
+                return memo[key]
+
+            for ref in schs[0]["dtrefs"]:
+                v, item = ref["v"], ref["item"]
+                value = dt_py(v)
+                for slot in SLOTS:
+                    if slot in ("hide", "rename") and v["t"] != "s":
+                        continue
+                    got = dt_out(slot, value)
+                    want = (dt_out(slot, "2021-%02d" % item) if item
+                            else dt_out(slot, None, present=False))
+                    evals += 1
+                    n_pairs += 1
+                    feats["datetime"] = feats.get("datetime", 0) + 1
+                    if got != want:
+                        mismatches.append((Mismatch(
+                            prop_id, None,
+                            "datetime %s dimension: reference %r in slot %s denotes %s but the output %s" %
+                            (side, value, slot, ("element %d" % item) if item else "nothing",
+                             "raises %s" % got[1] if got[0] == "raise" else "differs from the "
+                             "output of the value spelling" if item else "differs from the output "
+                             "without the reference"), {},
+                            tags={"slot": slot, "datetime": True, "vtype": v["t"],
+                                  "resolves": bool(item), "raises": got[0] == "raise", "side": side}),
+                            {"ref": ref, "slot": slot, "scn": scn0["name"]}))
     results = [{
         "scn": "elementref", "mode": "bfs+sim", "tlc_distinct": stats["states"],
         "generated": stats["generated"], "distinct": len(schs), "evaluations": evals,
@@ -224,4 +273,4 @@ def run_check(tier, seed, t0):
              "reference)",
         assumptions=["TLC", "payloads are spec-emitted states of the same scenarios"],
         feature_floor=("rule1", "rule2", "rule3", "rule4", "rule5", "rule6", "slot_hide",
-                       "slot_explicit", "slot_opposing_element"))
+                       "slot_explicit", "slot_opposing_element", "datetime"))
